@@ -437,9 +437,55 @@ def run(ctx):
         ctx.differential(open(f).read(), {})
 
 
+def _entry_types(text):
+    """{binding number: text of the `ty:` field} for every wgpu::BindGroupLayoutEntry in the generated text (whitespace removed)"""
+    import re
+    t = re.sub(r'\s+', '', text)
+    return {int(m.group(1)): m.group(2) for m in re.finditer(r'wgpu::BindGroupLayoutEntry\{binding:(\d+)(?:u32)?,visibility:.*?,ty:(.*?),count:None,?\}', t)}
+
+
+NATIVE_DECLS = ['var<uniform> {n}: vec4<f32>;', 'var<storage> {n}: vec4<f32>;', 'var<storage, read_write> {n}: vec4<f32>;',
+                'var<uniform> {n}: S;', 'var<storage, read> {n}: S;', 'var<storage, read_write> {n}: S;',
+                'var {n}: texture_2d<f32>;', 'var {n}: texture_2d<u32>;', 'var {n}: texture_depth_2d;', 'var {n}: sampler;', 'var {n}: sampler_comparison;',
+                'var {n}: texture_storage_2d<rgba8unorm, write>;', 'var {n}: texture_storage_2d<rgba8unorm, read>;',
+                'var<storage, read> {n}: array<vec4<f32>>;', 'var<storage, read_write> {n}: array<vec4<f32>>;']
+
+
+def native_compositional(ctx):
+    """the binding TYPE of a layout entry is a function of the variable's own declaration: the same declaration alone in a module
+    gets the same `ty` as next to other declarations of the group (sampling; same-type neighbours in different address spaces)"""
+    pre = 'struct S { a: vec4<f32> }\n'
+    alone = {}
+    for d in NATIVE_DECLS:
+        r = ctx.S.oracle.gen(pre + '@group(0) @binding(0) ' + d.replace('{n}', 'v0') + '\n', {})
+        if 'ok' in r and 0 in _entry_types(r['ok']):
+            alone[d] = _entry_types(r['ok'])[0]
+    n = 40 if ctx.tier == 'quick' else 400
+    for i in range(n):
+        k = ctx.rng.choice([2, 3, 4])
+        ds = [ctx.rng.choice(list(alone)) for _ in range(k)]
+        if i < len(NATIVE_DECLS) - 1:
+            ds = [NATIVE_DECLS[i], NATIVE_DECLS[i + 1]] + ds[2:]
+            if any(d not in alone for d in ds):
+                continue
+        src = pre + ''.join(f'@group(0) @binding({j}) ' + d.replace('{n}', f'v{j}') + '\n' for j, d in enumerate(ds))
+        r = ctx.S.oracle.gen(src, {})
+        if 'ok' not in r:
+            continue
+        got = _entry_types(r['ok'])
+        bad = [(j, d) for j, d in enumerate(ds) if got.get(j) != alone[d]]
+        if bad:
+            j, d = bad[0]
+            ctx.report('C02/native-compositional', f'binding {j} (`{d}`) gets ty {str(got.get(j))[:120]} next to {[x for x in ds]}, but {alone[d][:120]} alone',
+                       {'wgsl': src}, True, {'real': got.get(j), 'alone': alone[d]})
+            return
+        ctx.replayed_ok += 1
+
+
 def native(ctx):
     from harness import c03 as C03
     C03.native(ctx)
+    native_compositional(ctx)
 
 
 if __name__ == '__main__':
